@@ -182,6 +182,9 @@ def run_gjk_nesterov_accelerated(
             momentum = (i + 1) / (i + 3)
             y = momentum * ray + (1.0 - momentum) * support_point
             ray_dir = momentum * ray_dir + (1.0 - momentum) * y
+            if ray_dir.dot(ray_dir) == 0.0:
+                # Momentum cancelled the search direction.
+                ray_dir = ray
         else:
             ray_dir = ray
 
@@ -237,6 +240,11 @@ def run_gjk_nesterov_accelerated(
             break
 
         i += 1
+
+    if i == max_interations:
+        # Not converged: report the current upper bound of the distance.
+        distance = ray_len - inflation
+        inside = distance < tolerance
 
     return inside, distance, simplex, i
 
